@@ -337,7 +337,15 @@ def gen_load_world(rng, placement=None, producer=None, order=None, reuse=None):
     funs = []
     root_items = []
     reader = None
-    if placement == "root":
+    fq = None
+    if placement == "feeds_keep":
+        # the loaded value is passed on, as a run-time argument, to another kept call of the same function
+        fq = {"name": "fq", "params": [["a", None]], "store_path": None, "tag": "fq#0", "reads": [], "items": [], "fails": None, "uses_ext": False}
+        reader = {"name": "fr", "params": [], "store_path": None, "tag": "fr#0", "reads": [],
+                  "items": [load_item, {"k": "keep", "path": "/fed", "f": "fq", "args": [{"r": [0], "p": []}], "kwargs": []}],
+                  "fails": None, "uses_ext": False}
+        reader_item = {"k": "call", "f": "fr"}
+    elif placement == "root":
         reader_item = load_item
     elif placement == "helper":
         reader = {"name": "fr", "params": [], "store_path": None, "tag": "fr#0", "reads": [], "items": [load_item], "fails": None, "uses_ext": False}
@@ -366,7 +374,7 @@ def gen_load_world(rng, placement=None, producer=None, order=None, reuse=None):
     if rng.random() < 0.5:
         root_items.append({"k": "call", "f": "fn"})
     f0 = {"name": "f0", "params": [], "store_path": None, "tag": "f0#0", "reads": [], "items": root_items, "fails": None, "uses_ext": False}
-    funs = [f0] + ([reader] if reader else []) + [fp, noise]
+    funs = [f0] + ([reader] if reader else []) + ([fq] if fq else []) + [fp, noise]
     w = {"vars": vars_, "funs": funs, "ext_version": 0, "extra": []}
     meta = {"placement": placement, "producer": producer, "order": order, "reuse": reuse}
     return w, meta
